@@ -3,8 +3,8 @@ import itertools
 from hypothesis import strategies as st
 
 WPOOL = [0.25, 0.5, 1.0, 2.0, 3.0]
-ELABELS = ['weight', 'w', 'tw']
-NLABELS = ['rw', 'nw']
+ELABELS = ['weight', 'w', 'tw', '']          # '' : a legal but falsy attribute name (`if not label` is not `label is None`)
+NLABELS = ['rw', 'nw', '']
 
 
 def all_graphs(n):
@@ -32,7 +32,10 @@ def label_scheme(draw, n, kinds=('int', 'perm', 'str', 'tuple', 'mixed')):
     if kind == 'int':
         return list(range(n))
     if kind == 'perm':
-        return list(draw(st.permutations(list(range(n)))))
+        p_ = list(draw(st.permutations(list(range(n)))))
+        if draw(st.integers(0, 3)) == 0:
+            p_ = [1000 + 7 * i for i in p_]        # ints beyond CPython's small-int cache: equal labels need not be identical objects
+        return p_
     if kind == 'str':
         names = ['a', 'b', 'c', 'd', 'e', 'f', 'g', 'h', 'i', 'j', 'k', 'l', 'm', 'n', 'o', 'p', 'q', 'r', 's', 't',
                  'u', 'v', 'w', 'x', 'y', 'z', 'aa', 'bb', 'cc', 'dd', 'ee', 'ff', 'gg', 'hh', 'ii', 'jj', 'kk', 'll', 'mm', 'nn']
@@ -50,7 +53,7 @@ def edge_list(draw, n, family=None, max_extra=None):
     """edges over indices 0..n-1"""
     if n <= 1:
         return []
-    fam = family or draw(st.sampled_from(['random', 'random', 'random', 'path', 'star', 'cycle', 'complete', 'tree', 'sparse']))
+    fam = family or draw(st.sampled_from(['random', 'random', 'random', 'path', 'star', 'cycle', 'complete', 'tree', 'sparse', 'hub']))
     pairs = list(itertools.combinations(range(n), 2))
     if fam == 'path':
         es = [(i, i + 1) for i in range(n - 1)]
@@ -62,6 +65,8 @@ def edge_list(draw, n, family=None, max_extra=None):
         es = pairs
     elif fam == 'tree':
         es = [(draw(st.integers(0, i - 1)), i) for i in range(1, n)]
+    elif fam == 'hub':          # one node adjacent to (almost) everybody, few other edges: two very different degree values
+        es = [(0, i) for i in range(1, n) if draw(st.integers(0, 9)) > 0] + [p for p in pairs if p[0] != 0 and draw(st.integers(0, 7)) == 0]
     elif fam == 'sparse':
         es = [p for p in pairs if draw(st.integers(0, 3)) == 0]
     else:
